@@ -1,6 +1,7 @@
 package nbt
 
 import (
+	"errors"
 	"fmt"
 	"io"
 	"math"
@@ -122,6 +123,9 @@ func (m *StringifiedMessage) encode(d *Decoder, sb *strings.Builder, tagType byt
 		if err != nil {
 			return err
 		}
+		if aryLen < 0 {
+			return errors.New("array length less than 0")
+		}
 		first := true
 		sb.WriteString("[B;")
 		for i := int32(0); i < aryLen; i++ {
@@ -142,6 +146,9 @@ func (m *StringifiedMessage) encode(d *Decoder, sb *strings.Builder, tagType byt
 		if err != nil {
 			return err
 		}
+		if aryLen < 0 {
+			return errors.New("array length less than 0")
+		}
 		sb.WriteString("[I;")
 		first := true
 		for i := 0; i < int(aryLen); i++ {
@@ -161,6 +168,9 @@ func (m *StringifiedMessage) encode(d *Decoder, sb *strings.Builder, tagType byt
 		aryLen, err := d.readInt32()
 		if err != nil {
 			return err
+		}
+		if aryLen < 0 {
+			return errors.New("array length less than 0")
 		}
 		first := true
 		sb.WriteString("[L;")
@@ -185,6 +195,9 @@ func (m *StringifiedMessage) encode(d *Decoder, sb *strings.Builder, tagType byt
 		listLen, err := d.readInt32()
 		if err != nil {
 			return err
+		}
+		if listLen < 0 {
+			return errors.New("list length less than 0")
 		}
 		first := true
 		sb.WriteString("[")
